@@ -12,6 +12,7 @@ use ldpc_toolbox::simulation::modulation::{Bpsk, Psk8};
 use ldpc_toolbox::sparse::SparseMatrix;
 use proptest::prelude::*;
 use serde::{Deserialize, Serialize};
+use std::collections::BTreeSet;
 use std::sync::{Arc, Mutex};
 
 /// What the probe has seen. Frames are sorted, as they arrive, by their LLR scale (mean magnitude of
@@ -407,8 +408,11 @@ pub fn check(c: &Case, p: &mut Probe) -> Check {
             }
         }
     }
-    let hb = c.h.to_bits();
-    let tail = hb.submatrix_cols(k, n);
+    // own systematic re-encoding: for an exact staircase tail the accumulator (linear time, used for the
+    // frames of more than 2^16 bits), otherwise a dense GF(2) solve with the last r columns
+    let hset = c.h.set();
+    let stair = hset.iter().filter(|e| e.1 >= k).count() == 2 * r - 1 && (0..r).all(|i| hset.contains(&(i, k + i)) && (i == 0 || hset.contains(&(i, k + i - 1))));
+    let tail = if stair { None } else { Some(c.h.to_bits().submatrix_cols(k, n)) };
     let info_punctured = punct[..k].iter().any(|&b| b);
     let unknown: Vec<usize> = (0..n).filter(|&i| punct[i]).collect();
     let mut seen_frames = std::collections::HashSet::new();
@@ -433,12 +437,21 @@ pub fn check(c: &Case, p: &mut Probe) -> Check {
             if !info_punctured {
                 // the signs of the transmitted positions are those of the systematic codeword of the first k bits
                 let mut rhs = vec![0u8; r];
-                for &(i, j) in &c.h.set() {
+                for &(i, j) in &hset {
                     if j < k {
                         rhs[i] ^= bits[j];
                     }
                 }
-                let parity = tail.solve(&rhs).ok_or_else(|| Fail::new("harness", "tail not invertible".to_string()))?;
+                let parity = match &tail {
+                    Some(t) => t.solve(&rhs).ok_or_else(|| Fail::new("harness", "tail not invertible".to_string()))?,
+                    None => {
+                        let mut acc = 0u8;
+                        rhs.iter().map(|&b| {
+                            acc ^= b;
+                            acc
+                        }).collect()
+                    }
+                };
                 for j in 0..r {
                     if !punct[k + j] {
                         ensure!(bits[k + j] == parity[j], "not-systematic-codeword", "frame signs are not the systematic codeword of their first k bits: parity position {} has sign bit {} but the encoder gives {} {ctx}", k + j, bits[k + j], parity[j]);
@@ -448,7 +461,7 @@ pub fn check(c: &Case, p: &mut Probe) -> Check {
                 // own GF(2) solve for the punctured unknowns
                 let mut a = BitMat::zero(r, unknown.len());
                 let mut rhs = vec![0u8; r];
-                for &(i, j) in &c.h.set() {
+                for &(i, j) in &hset {
                     match unknown.iter().position(|&u| u == j) {
                         Some(q) => a.flip(i, q),
                         None => rhs[i] ^= bits[j],
@@ -539,6 +552,36 @@ pub fn check(c: &Case, p: &mut Probe) -> Check {
     Ok(())
 }
 
+/// frames longer than 2^16 bits (longer than any code the toolbox generates): staircase codes with
+/// a weight-3 message part, interleaver present in every case
+fn long_cases(_t: Tier) -> Vec<Case> {
+    let code = |r: usize, n: usize| -> Mat {
+        let k = n - r;
+        let mut m = Mat::new(r, n);
+        let mut seen = BTreeSet::new();
+        for j in 0..k {
+            for (a, b) in [(1usize, 0usize), (7, 3), (13, 11)] {
+                let e = ((a * j + b + j / r) % r, j);
+                if seen.insert(e) {
+                    m.ones.push(e);
+                }
+            }
+        }
+        m.ones.push((0, k));
+        for i in 1..r {
+            m.ones.push((i, k + i));
+            m.ones.push((i, k + i - 1));
+        }
+        m
+    };
+    vec![
+        Case { h: code(6_000, 66_000), pattern: None, interleaver: Some(3), psk8: false, sigma_target: Fx(0.1), via_builder: false, points: vec![] },
+        Case { h: code(6_000, 66_003), pattern: None, interleaver: Some(-21), psk8: true, sigma_target: Fx(0.04), via_builder: true, points: vec![] },
+        Case { h: code(24_000, 84_000), pattern: Some(vec![true, true, true, true, true, false, true]), interleaver: Some(4), psk8: true, sigma_target: Fx(0.04), via_builder: false, points: vec![] },
+        Case { h: code(24_000, 84_000), pattern: Some(vec![true, true, true, true, true, false, true]), interleaver: Some(-8), psk8: false, sigma_target: Fx(0.1), via_builder: true, points: vec![0, 1] },
+    ]
+}
+
 pub fn property() -> Property {
     Property {
         id: "C12",
@@ -549,6 +592,13 @@ pub fn property() -> Property {
             strategy,
             check,
             health: &[("puncturing+interleaving", 0.25), ("8PSK", 0.40), ("backward-interleaver", 0.20), ("several-ebn0-points", 0.40)],
+        }),
+        Box::new(EnumSub {
+            name: "long-frames",
+            rule: "four configurations whose transmitted frame is longer than 2^16 bits (staircase codes of 66 000, 66 003 and 84 000 bits with a weight-3 message part; interleaver 3 / -21 / 4 / -8 columns; BPSK and 8PSK; a 7-block pattern that removes a parity block; BerTest::new and BerTestBuilder; one case with two Eb/N0 points): the same per-frame oracles (length, exact zeros at the punctured positions, signs = own accumulator re-encoding of the first k sign bits, no repeated frame) and the same noise statistics",
+            cases: long_cases,
+            check,
+            exhaustive: false,
         })],
         assumptions: vec![
             "the BER engine draws messages and noise from rand::rng() (not seedable without a hook): structural verdicts do not depend on the draw; the statistical ones use +-7 sigma acceptance regions (per-test false-alarm probability < 3e-12 under the Gaussian approximation)".into(),
